@@ -28,8 +28,8 @@ var (
 
 func errClass(err error) string {
 	s := err.Error()
-	if i := strings.Index(s, "error: `"); i >= 0 && strings.HasPrefix(s, "string: `") {
-		s = "json-syntax: " + s[i:]
+	if i, j := strings.Index(s, "`"), strings.LastIndex(s, "`"); i >= 0 && j > i {
+		s = s[:i] + "Q" + s[j+1:]
 	}
 	s = quotedRe.ReplaceAllString(s, "Q")
 	s = digitsRe.ReplaceAllString(s, "N")
@@ -37,6 +37,7 @@ func errClass(err error) string {
 }
 
 type evalReq struct {
+	ctxName string // class of the entry context (goes into completeness keys)
 	sd      *structD
 	ss      sources
 	entry   string
@@ -99,7 +100,7 @@ func (h *harness) evalOne(c *kit.Case, q *evalReq) {
 	default:
 		kit.Obs("rejected", 1)
 		if ref.acceptDemanded() {
-			c.Viol("C08/valid-input-rejected/"+errClass(err), "input meets every declared constraint with correctly typed values, yet: "+err.Error(), witness(nil))
+			c.Viol("C08/valid-input-rejected/"+q.ctxName+"/"+errClass(err), "input meets every declared constraint with correctly typed values, yet: "+err.Error(), witness(nil))
 		} else if len(ref.must) > 0 {
 			kit.Obs("rejected_and_reference_rejects", 1)
 		} else {
@@ -127,7 +128,7 @@ func oneSource(e *entry, tree map[string]any) sources {
 }
 
 func (h *harness) evalEntry(c *kit.Case, sd *structD, e *entry, tree map[string]any, classes string) {
-	h.evalOne(c, &evalReq{sd: sd, ss: oneSource(e, tree), entry: e.Name, classes: classes,
+	h.evalOne(c, &evalReq{sd: sd, ss: oneSource(e, tree), entry: e.Name, ctxName: e.Ctx.Name, classes: classes,
 		doc:  func() string { return e.Doc(tree) },
 		call: func(t any) error { return e.Call(tree, t) }})
 }
@@ -392,7 +393,7 @@ func (h *harness) runHTTP(t *testing.T, n int) {
 			}
 			// the real request drops what HTTP cannot carry; keep the oracle's view identical
 			sanitizeHTTP(in)
-			h.evalOne(c, &evalReq{sd: sd, ss: in.sources(), entry: "httpx.Parse", classes: strings.Join(classes, ";"),
+			h.evalOne(c, &evalReq{sd: sd, ss: in.sources(), entry: "httpx.Parse", ctxName: "http", classes: strings.Join(classes, ";"),
 				doc: in.doc, call: in.call})
 			if c.Index < 2 && i == 4 {
 				c.Sample("http", 2, map[string]any{"type": sd.describe(), "request": in.doc()})
